@@ -810,6 +810,47 @@ func ruleUnregister(c *Ctx) {
 		bad = "path budget exhausted"
 	}
 	c.check(bad == "", fnName(fn), "unregister clears every index the entry is findable through (base, queries, links)", p.Pos(fn.Pos()), fmt.Sprintf("%d paths", len(tr.Paths)), bad)
+
+	// an entry that drops its subscriber set (failed get, delete event) is taken out of the indexes on the
+	// same path: a failed or deleted entry that stays findable answers later subscribers from its remembered
+	// state, and its uses are then released through a branch that does not queue the entry for eviction
+	fSubs := p.Field("rescache.ResourceSubscription.subs")
+	unregM, _ := fn.Object().(*types.Func)
+	for _, st := range p.stores[fSubs] {
+		if !isNilConst(st.Val) {
+			continue
+		}
+		if fa, ok := st.Addr.(*ssa.FieldAddr); ok {
+			if _, fresh := fa.X.(*ssa.Alloc); fresh {
+				continue
+			}
+		}
+		g := st.Parent()
+		c.inst(1)
+		sp2 := &Spec{}
+		sp2.Classify = func(t *Tracer, fr *Frame, in ssa.Instruction) []Ev {
+			if in == ssa.Instruction(st) {
+				return []Ev{{Kind: "subs=nil"}}
+			}
+			if call, ok := in.(ssa.CallInstruction); ok && unregM != nil {
+				if cf := calleeFunc(call.Common()); cf == unregM {
+					return []Ev{{Kind: "unregister", Stop: true}}
+				}
+			}
+			return nil
+		}
+		tr2 := runTrace(p, TopLevel(g), sp2)
+		bad2 := ""
+		for _, path := range tr2.Paths {
+			if hasKind(path, "subs=nil") && !hasKind(path, "unregister") {
+				bad2 = "the entry drops its subscribers but stays registered: " + tr2.FmtPath(path)
+			}
+		}
+		if tr2.Trunc {
+			bad2 = "path budget exhausted"
+		}
+		c.check(bad2 == "", fnName(g), "an entry that drops its subscriber set is unregistered on the same path", p.InstrPos(st), fmt.Sprintf("%d paths", len(tr2.Paths)), bad2)
+	}
 }
 
 // ---------------------------------------------------------------------------
